@@ -5,9 +5,10 @@ import re
 
 class Facts:
     def __init__(self, path):
-        with open(path) as fh:
-            d = json.load(fh)
+        import roles
+        d = roles.load_canonical(path)
         self.raw = d
+        self.roles = d.get("_roles", {})
         self.crate = d["crate"]
         self.config = d["config"]
         self.fns = d["fns"]
